@@ -121,6 +121,7 @@ var structFields = map[string][]struct{ name, kind string }{
 	"priv":  {{"Key", "scalar"}},
 	"naf":   {{"pos", "bytes"}, {"neg", "bytes"}, {"start", "int"}, {"end", "int"}},
 	"epub": {{"Curve", "curve"}, {"X", "big"}, {"Y", "big"}},
+	"sopt": {{"Format", "int"}, {"Hash", "int"}},
 	"ext": {{"Version", "bytes"}, {"Depth", "int"}, {"Fingerprint", "bytes"}, {"ChildNumber", "int"}, {"KeyData", "bytes"}, {"ChainCode", "bytes"},
 		{"curve", "curve"}},
 }
@@ -128,13 +129,15 @@ var structFields = map[string][]struct{ name, kind string }{
 var leanType = map[string]string{"scalar": "Nat", "field": "Nat", "int": "Nat", "point": "Jac", "sig": "Nat × Nat × Nat", "ssig": "Nat × Nat",
 	"pub": "Nat × Nat", "priv": "Nat", "bytes": "Bytes", "bool": "Bool", "hmac": "HmacObj", "reader": "Reader",
 	"naf": "Bytes × Bytes × Nat × Nat", "big": "Nat", "curve": "Unit",
-	"ext": "Bytes × Nat × Bytes × Nat × Bytes × Bytes × Unit", "epub": "Unit × Nat × Nat"}
+	"ext": "Bytes × Nat × Bytes × Nat × Bytes × Bytes × Unit", "epub": "Unit × Nat × Nat",
+	"sopt": "Nat × Nat", "sopts": "Option (Nat × Nat)"}
 
 // valueArgs: a bytes-valued argument is parenthesised when it is not atomic
 
 var zeroOf = map[string]string{"scalar": "0", "field": "0", "int": "0", "point": "((0, 0, 0) : Jac)", "sig": "((0, 0, 0) : Nat × Nat × Nat)",
 	"ssig": "((0, 0) : Nat × Nat)", "pub": "((0, 0) : Nat × Nat)", "priv": "0", "bool": "false",
-	"naf": "((List.replicate 33 (0 : UInt8), List.replicate 33 (0 : UInt8), 0, 0) : Bytes × Bytes × Nat × Nat)", "big": "0"}
+	"naf": "((List.replicate 33 (0 : UInt8), List.replicate 33 (0 : UInt8), 0, 0) : Bytes × Bytes × Nat × Nat)", "big": "0",
+	"sopt": "((0, 0) : Nat × Nat)"}
 
 func proj(term string, i, n int) string {
 	if n == 1 {
@@ -202,74 +205,76 @@ type d8entry struct {
 	errT   string // Lean error type of a fallible entry
 	extra  string // extra leading Lean parameters, e.g. "(B : Bytes → Bytes)"
 	extraA string // … and how to pass them on in calls
+	skip   string // a parameter the function must not use (it gets no Lean counterpart: any use fails closed)
 	out    string // name of a *JacobianPoint out-parameter: the entry returns its final value
 	fuel   string // fuel given to the entry's retry loop (a Lean term over its parameters); "" = no loop
 }
 
 var d8entries = []d8entry{
-	{"", "fieldToModNScalar", "fieldToModNScalar", true, "", "", "", "", ""},
-	{"", "modNScalarToField", "modNScalarToField", true, "", "", "", "", ""},
-	{"", "ScalarBaseMultNonConst", "scalarBaseMultNonConst", true, "", "", "", "result", ""},
-	{"", "sign", "sign", false, "Unit", "", "", "", ""},
-	{"", "signRFC6979", "signRFC6979", false, "Unit", "", "", "", "16"},
-	{"", "Signature.Verify", "verify", true, "", "", "", "", ""},
-	{"", "Signature.RecoverPublicKey", "recoverPublicKey", false, "SigErr", "", "", "", ""},
-	{"", "GenerateSharedSecret", "generateSharedSecret", true, "", "", "", "", ""},
-	{"schnorr", "schnorrSign", "schnorrSign", false, "SchnorrErr", "(B : Bytes → Bytes)", "B", "", ""},
-	{"schnorr", "schnorrVerify", "schnorrVerify", false, "SchnorrErr", "(B : Bytes → Bytes)", "B", "", ""},
-	{"schnorr", "Sign", "schnorrSignRFC6979", false, "SchnorrErr", "(B : Bytes → Bytes)", "B", "", "16"},
+	{"", "fieldToModNScalar", "fieldToModNScalar", true, "", "", "", "", "", ""},
+	{"", "modNScalarToField", "modNScalarToField", true, "", "", "", "", "", ""},
+	{"", "ScalarBaseMultNonConst", "scalarBaseMultNonConst", true, "", "", "", "", "result", ""},
+	{"", "sign", "sign", false, "Unit", "", "", "", "", ""},
+	{"", "signRFC6979", "signRFC6979", false, "Unit", "", "", "", "", "16"},
+	{"", "Signature.Verify", "verify", true, "", "", "", "", "", ""},
+	{"", "Signature.RecoverPublicKey", "recoverPublicKey", false, "SigErr", "", "", "", "", ""},
+	{"", "GenerateSharedSecret", "generateSharedSecret", true, "", "", "", "", "", ""},
+	{"schnorr", "schnorrSign", "schnorrSign", false, "SchnorrErr", "(B : Bytes → Bytes)", "B", "", "", ""},
+	{"schnorr", "schnorrVerify", "schnorrVerify", false, "SchnorrErr", "(B : Bytes → Bytes)", "B", "", "", ""},
+	{"schnorr", "Sign", "schnorrSignRFC6979", false, "SchnorrErr", "(B : Bytes → Bytes)", "B", "", "", "16"},
 	// second tranche
-	{"", "NonceRFC6979", "nonceRFC6979", false, "Unit", "", "", "", "256"},
-	{"", "generatePrivateKey", "generatePrivateKey", false, "IoErr", "", "", "", "rand.data.length / 32 + 1"},
-	{"", "PrivKeyFromBytes", "privKeyFromBytes", true, "", "", "", "", ""},
-	{"", "PrivateKey.PubKey", "pubKey", true, "", "", "", "", ""},
-	{"", "Signature.ExportCompact", "exportCompact", true, "", "", "", "", ""},
-	{"", "SignCompact", "signCompact", false, "Unit", "", "", "", ""},
+	{"", "NonceRFC6979", "nonceRFC6979", false, "Unit", "", "", "", "", "256"},
+	{"", "generatePrivateKey", "generatePrivateKey", false, "IoErr", "", "", "", "", "rand.data.length / 32 + 1"},
+	{"", "PrivKeyFromBytes", "privKeyFromBytes", true, "", "", "", "", "", ""},
+	{"", "PrivateKey.PubKey", "pubKey", true, "", "", "", "", "", ""},
+	{"", "Signature.ExportCompact", "exportCompact", true, "", "", "", "", "", ""},
+	{"", "SignCompact", "signCompact", false, "Unit", "", "", "", "", ""},
 	// third tranche: the endomorphism split, NAF recoding and the interleaved double-and-add loop
-	{"", "splitK", "splitKGen", true, "", "", "", "", ""},
-	{"", "naf", "nafGen", true, "", "", "", "", ""},
-	{"", "ScalarMultNonConst", "scalarMultNonConst", true, "", "", "", "result", ""},
+	{"", "splitK", "splitKGen", true, "", "", "", "", "", ""},
+	{"", "naf", "nafGen", true, "", "", "", "", "", ""},
+	{"", "ScalarMultNonConst", "scalarMultNonConst", true, "", "", "", "", "result", ""},
 	// fourth tranche: the crypto/elliptic adaptor over big.Int
-	{"", "bigAffineToJacobian", "bigAffineToJacobian", true, "", "", "", "result", ""},
-	{"", "jacobianToBigAffine", "jacobianToBigAffine", true, "", "", "", "", ""},
-	{"", "moduloReduce", "moduloReduce", true, "", "", "", "", ""},
-	{"", "KoblitzCurve.IsOnCurve", "adaptorIsOnCurveGen", true, "", "", "", "", ""},
-	{"", "KoblitzCurve.Add", "adaptorAddGen", true, "", "", "", "", ""},
-	{"", "KoblitzCurve.Double", "adaptorDoubleGen", true, "", "", "", "", ""},
-	{"", "KoblitzCurve.ScalarMult", "adaptorScalarMultGen", true, "", "", "", "", ""},
-	{"", "KoblitzCurve.ScalarBaseMult", "adaptorScalarBaseMultGen", true, "", "", "", "", ""},
-	{"", "PublicKey.X", "pubKeyX", true, "", "", "", "", ""},
-	{"", "PublicKey.Y", "pubKeyY", true, "", "", "", "", ""},
-	{"", "Signature.BruteforceRecoveryCode", "bruteforceRecoveryCode", false, "SigErr", "", "", "sig", "8"},
+	{"", "bigAffineToJacobian", "bigAffineToJacobian", true, "", "", "", "", "result", ""},
+	{"", "jacobianToBigAffine", "jacobianToBigAffine", true, "", "", "", "", "", ""},
+	{"", "moduloReduce", "moduloReduce", true, "", "", "", "", "", ""},
+	{"", "KoblitzCurve.IsOnCurve", "adaptorIsOnCurveGen", true, "", "", "", "", "", ""},
+	{"", "KoblitzCurve.Add", "adaptorAddGen", true, "", "", "", "", "", ""},
+	{"", "KoblitzCurve.Double", "adaptorDoubleGen", true, "", "", "", "", "", ""},
+	{"", "KoblitzCurve.ScalarMult", "adaptorScalarMultGen", true, "", "", "", "", "", ""},
+	{"", "KoblitzCurve.ScalarBaseMult", "adaptorScalarBaseMultGen", true, "", "", "", "", "", ""},
+	{"", "PublicKey.X", "pubKeyX", true, "", "", "", "", "", ""},
+	{"", "PublicKey.Y", "pubKeyY", true, "", "", "", "", "", ""},
+	{"", "Signature.BruteforceRecoveryCode", "bruteforceRecoveryCode", false, "SigErr", "", "", "", "sig", "8"},
 	// seventh tranche: the non-kernel wrappers of modnscalar.go / field.go (their kernels are T1)
-	{"", "ModNScalar.Mul", "scalarMul", true, "", "", "", "s", ""},
-	{"", "ModNScalar.Add", "scalarAdd", true, "", "", "", "s", ""},
-	{"", "ModNScalar.Negate", "scalarNegate", true, "", "", "", "s", ""},
-	{"", "ModNScalar.Square", "scalarSquare", true, "", "", "", "s", ""},
-	{"", "ModNScalar.SquareVal", "scalarSquareVal", true, "", "", "", "s", ""},
-	{"", "ModNScalar.Bytes", "scalarBytes", true, "", "", "", "", ""},
-	{"", "ModNScalar.SetByteSlice", "scalarSetByteSliceGen", true, "", "", "", "s", ""},
-	{"", "ModNScalar.InverseValNonConst", "scalarInverseValNonConst", true, "", "", "", "s", ""},
-	{"", "ModNScalar.InverseNonConst", "scalarInverseNonConst", true, "", "", "", "s", ""},
-	{"", "FieldVal.SetByteSlice", "fieldSetByteSliceGen", true, "", "", "", "f", ""},
+	{"", "ModNScalar.Mul", "scalarMul", true, "", "", "", "", "s", ""},
+	{"", "ModNScalar.Add", "scalarAdd", true, "", "", "", "", "s", ""},
+	{"", "ModNScalar.Negate", "scalarNegate", true, "", "", "", "", "s", ""},
+	{"", "ModNScalar.Square", "scalarSquare", true, "", "", "", "", "s", ""},
+	{"", "ModNScalar.SquareVal", "scalarSquareVal", true, "", "", "", "", "s", ""},
+	{"", "ModNScalar.Bytes", "scalarBytes", true, "", "", "", "", "", ""},
+	{"", "ModNScalar.SetByteSlice", "scalarSetByteSliceGen", true, "", "", "", "", "s", ""},
+	{"", "ModNScalar.InverseValNonConst", "scalarInverseValNonConst", true, "", "", "", "", "s", ""},
+	{"", "ModNScalar.InverseNonConst", "scalarInverseNonConst", true, "", "", "", "", "s", ""},
+	{"", "FieldVal.SetByteSlice", "fieldSetByteSliceGen", true, "", "", "", "", "f", ""},
 	// fifth tranche: extended keys
-	{"ecckd", "KeyVersion.IsPrivate", "versionIsPrivateGen", true, "", "", "", "", ""},
-	{"ecckd", "KeyVersion.ToPublic", "versionToPublicGen", true, "", "", "", "", ""},
-	{"ecckd", "ExtendedKey.UnmarshalBinary", "unmarshalBinary", false, "BipErr", "", "", "k", ""},
+	{"ecckd", "KeyVersion.IsPrivate", "versionIsPrivateGen", true, "", "", "", "", "", ""},
+	{"ecckd", "KeyVersion.ToPublic", "versionToPublicGen", true, "", "", "", "", "", ""},
+	{"ecckd", "ExtendedKey.UnmarshalBinary", "unmarshalBinary", false, "BipErr", "", "", "", "k", ""},
 	// sixth tranche: child key derivation
-	{"ecckd", "isEven", "isEvenGen", true, "", "", "", "", ""},
-	{"ecckd", "serializeCompressedEcdsa", "serializeCompressedEcdsa", true, "", "", "", "", ""},
-	{"ecckd", "ExtendedKey.pubKeyBytes", "pubKeyBytes", true, "", "", "", "", ""},
-	{"ecckd", "ExtendedKey.ChildWithIL", "childWithILGen", false, "BipErr", "(O : Oracles)", "O", "", ""},
+	{"ecckd", "isEven", "isEvenGen", true, "", "", "", "", "", ""},
+	{"ecckd", "serializeCompressedEcdsa", "serializeCompressedEcdsa", true, "", "", "", "", "", ""},
+	{"ecckd", "ExtendedKey.pubKeyBytes", "pubKeyBytes", true, "", "", "", "", "", ""},
+	{"ecckd", "ExtendedKey.ChildWithIL", "childWithILGen", false, "BipErr", "(O : Oracles)", "O", "", "", ""},
 	// eighth tranche: thin exported front ends
-	{"ecckd", "ExtendedKey.Child", "childGen", false, "BipErr", "(O : Oracles)", "O", "", ""},
-	{"ecckd", "FromSeed", "fromSeedGen", false, "BipErr", "(O : Oracles)", "O", "", ""},
-	{"ecckd", "ExtendedKey.Public", "publicGen", false, "BipErr", "", "", "", ""},
-	{"", "PrivateKey.ECDH", "ecdhMethod", false, "Unit", "", "", "", ""},
-	{"", "Signature.Export", "exportGen", true, "", "", "", "", ""},
-	{"", "Sign", "signGen", false, "Unit", "", "", "", ""},
-	{"", "GeneratePrivateKeyFromRand", "generatePrivateKeyFromRand", false, "IoErr", "", "", "", ""},
-	{"", "RecoverCompact", "recoverCompact", false, "SigErr", "", "", "", ""},
+	{"ecckd", "ExtendedKey.Child", "childGen", false, "BipErr", "(O : Oracles)", "O", "", "", ""},
+	{"ecckd", "FromSeed", "fromSeedGen", false, "BipErr", "(O : Oracles)", "O", "", "", ""},
+	{"ecckd", "ExtendedKey.Public", "publicGen", false, "BipErr", "", "", "", "", ""},
+	{"", "PrivateKey.ECDH", "ecdhMethod", false, "Unit", "", "", "", "", ""},
+	{"", "Signature.Export", "exportGen", true, "", "", "", "", "", ""},
+	{"", "Sign", "signGen", false, "Unit", "", "", "", "", ""},
+	{"", "GeneratePrivateKeyFromRand", "generatePrivateKeyFromRand", false, "IoErr", "", "", "", "", ""},
+	{"", "RecoverCompact", "recoverCompact", false, "SigErr", "", "", "", "", ""},
+	{"", "PrivateKey.Sign", "signerSign", false, "Unit", "", "", "rand", "", ""},
 }
 
 type d8 struct {
@@ -376,6 +381,10 @@ func (d *d8) kindOf(t types.Type) (string, int) {
 		return "naf", 0
 	case "ExtendedKey":
 		return "ext", 0
+	case "SignOptions":
+		return "sopt", 0
+	case "SignerOpts":
+		return "sopts", 0 // crypto.SignerOpts: `some (Format, Hash)` when the dynamic type is *SignOptions, `none` otherwise
 	case "PublicKey":
 		if pk == "ecdsa" {
 			return "epub", 0
@@ -414,7 +423,7 @@ func (d *d8) kindOf(t types.Type) (string, int) {
 			return "int", 32
 		case types.Uint64:
 			return "int", 64
-		case types.Int, types.UntypedInt:
+		case types.Int, types.UntypedInt, types.Uint:
 			return "int", 0
 		}
 	case *types.Slice:
@@ -872,7 +881,7 @@ func (d *d8) composite(cl *ast.CompositeLit, pre *[]*dnode) *dv {
 		return &dv{kind: "bytes", term: "([" + strings.Join(es, ", ") + "] : Bytes)"}
 	}
 	fs, ok := structFields[k]
-	keyed := len(cl.Elts) > 0
+	keyed := true // T{} and T{k: v, …}: fields not mentioned are zero
 	for _, el := range cl.Elts {
 		if _, isKV := el.(*ast.KeyValueExpr); !isKV {
 			keyed = false
@@ -1344,6 +1353,11 @@ func (d *d8) call(x *ast.CallExpr, pre *[]*dnode) *dv {
 		n := "(" + dst.read() + ".length)"
 		d.writeBytesAt(dst, "beBytes "+n+" "+recv.read(), n, pre)
 		return &dv{kind: "unit"}
+	case "Signature.Serialize":
+		if fn.Pkg().Name() == "secp256k1" { // the DER serialiser: regenerated by T7 (C09 serializeDER_regenerated)
+			sg := d.expr(recvX, pre)
+			return &dv{kind: "bytes", term: "(serializeDER " + sg.term + ".1 " + sg.term + ".2.1)"}
+		}
 	case "PublicKey.SerializeCompressed":
 		pk := d.expr(recvX, pre)
 		return &dv{kind: "bytes", term: "(serializeCompressed " + pk.term + ".1 " + pk.term + ".2)"}
@@ -1519,6 +1533,9 @@ func (d *d8) simple(s ast.Stmt, pre *[]*dnode) bool {
 				o := d.p.info.Defs[nm]
 				k, _ := d.kindOf(o.Type())
 				z, ok := zeroOf[k]
+				if _, isPtr := o.Type().(*types.Pointer); isPtr && k != "sopt" {
+					ok = false // a nil pointer variable
+				}
 				if k == "bytes" {
 					if arr, isArr := o.Type().Underlying().(*types.Array); isArr {
 						z, ok = fmt.Sprintf("(List.replicate %d (0 : UInt8))", arr.Len()), true
@@ -1605,6 +1622,12 @@ func (d *d8) simple(s ast.Stmt, pre *[]*dnode) bool {
 				}
 				if k, _ := d.kindOf(d.p.info.Types[st.Lhs[0]].Type); k == "curve" && !isId {
 					d.write(d.lvalue(st.Lhs[0], pre), "()", pre) // the curve object carries no data
+					return false
+				}
+				if k, _ := d.kindOf(d.p.info.Types[st.Lhs[0]].Type); k == "sopt" && isPtr {
+					// *SignOptions is read-only data here: re-pointing is copying the value
+					v := d.expr(st.Rhs[0], pre)
+					d.write(d.lvalue(st.Lhs[0], pre), v.term, pre)
 					return false
 				}
 				if isPtr {
@@ -2085,6 +2108,13 @@ func (d *d8) stmts(list []ast.Stmt, k func() *dnode) *dnode {
 				return next()
 			}
 			cc := st.Body.List[i].(*ast.CaseClause)
+			if len(cc.Body) == 1 && i+1 < len(st.Body.List) {
+				if br, ok := cc.Body[0].(*ast.BranchStmt); ok && br.Tok == token.FALLTHROUGH {
+					if nx := st.Body.List[i+1].(*ast.CaseClause); nx.List == nil && i+2 == len(st.Body.List) {
+						return build(i + 1) // falls through into the default clause: the case adds nothing
+					}
+				}
+			}
 			if cc.List == nil { // default: must be last
 				if i != len(st.Body.List)-1 {
 					d.fail(cc, "default clause that is not last")
@@ -2393,6 +2423,44 @@ func (d *d8) ifStmt(st *ast.IfStmt, next func() *dnode) *dnode {
 						arms: []darm{{"none", bad}, {"some " + y.root, good}}})
 				}
 			}
+		}
+	}
+	// `if o, ok := opts.(*SignOptions); ok { … } else { … }` : a match on the dynamic type
+	if as, ok := st.Init.(*ast.AssignStmt); ok && len(as.Rhs) == 1 && len(as.Lhs) == 2 && as.Tok == token.DEFINE {
+		if ta, ok := as.Rhs[0].(*ast.TypeAssertExpr); ok {
+			src := d.expr(ta.X, &pre)
+			oId, okId := as.Lhs[0].(*ast.Ident), as.Lhs[1].(*ast.Ident)
+			ci, isId := st.Cond.(*ast.Ident)
+			tk, _ := d.kindOf(d.p.info.Types[ta.Type].Type)
+			var elseList []ast.Stmt
+			if eb, ok := st.Else.(*ast.BlockStmt); ok {
+				elseList = eb.List
+			}
+			if src.kind == "sopts" && tk == "sopt" && isId && ci.Name == okId.Name && !hasTerminator(st.Body.List) && !hasTerminator(elseList) {
+				W := &[]string{}
+				d.wstack = append(d.wstack, map[string]bool{})
+				e0, kn0, sc0, st0 := d.snapshot()
+				on := d.fresh(oId.Name)
+				d.declare(on, "sopt")
+				d.env[d.p.info.Defs[oId]] = &dloc{root: on, kind: "sopt"}
+				a := d.stmts(st.Body.List, func() *dnode { return &dnode{kind: "tuple", names: W} })
+				d.restore(e0, kn0, sc0, st0)
+				b := d.branch(elseList, func() *dnode { return &dnode{kind: "tuple", names: W} })
+				w := d.wstack[len(d.wstack)-1]
+				d.wstack = d.wstack[:len(d.wstack)-1]
+				for n := range w {
+					if _, live := d.stype[n]; live {
+						*W = append(*W, n)
+					}
+				}
+				sort.Strings(*W)
+				for _, n := range *W {
+					d.wrote(n)
+				}
+				m := &dnode{kind: "match", term: src.term, arms: []darm{{"some " + on, a}, {"none", b}}}
+				return chain(pre, &dnode{kind: "lett", names: W, a: m, b: next()})
+			}
+			d.fail(st, "type assertion outside the T8 subset")
 		}
 	}
 	// `if _, err := io.ReadFull(r, buf[:]); err != nil { … }` with a 32-byte buffer (model: readFull32)
@@ -2869,6 +2937,9 @@ func passDrivers(pkgs []*Pkg) (string, []string, []string) {
 		var paramNames []string
 		d.stubOK = true
 		addParam := func(id *ast.Ident) {
+			if ent.skip != "" && id.Name == ent.skip {
+				return
+			}
 			paramNames = append(paramNames, id.Name)
 			o := p.info.Defs[id]
 			k, _ := d.kindOf(o.Type())
